@@ -171,6 +171,15 @@ def check_decompose(case, ctx):
                 ctx.check(ps[k] == d["degree"][k] + 1 and len(set(pk[k])) == 2, "not-bezier",
                           "piece %d is not a Bezier piece in direction %d: size %d, knots %r" % (i, k, ps[k], pk[k]))
         _piece_matches(ctx, R, pc, box, "piece-differs", "decompose(%s) piece %d on %r" % (dirs, i, [[float(a), float(b)] for a, b in box]))
+    # the pieces are the caller's: refining one of them does not touch the input (also when the input was one segment already)
+    if pieces and pdim == 1:
+        pc0 = pieces[0]
+        a0, b0 = pc0.domain
+        operations.insert_knot(pc0, [a0 + 0.375 * (b0 - a0)], [1])
+        pc0.degree = pc0.degree          # (re-assigning the degree is an edit as well)
+        ctx.check(build.snapshot(obj) == before, "piece-edit-changed-input", "inserting a knot into a piece returned by decompose_curve changed the input curve")
+        ctx.check(([list(p) for p in obj.ctrlpts], list(obj.weights) if obj.rational else None) == views_before, "piece-edit-changed-input",
+                  "after editing a returned piece the input reports other control points / weights")
 
 
 SUBCHECKS = [
